@@ -1,5 +1,6 @@
 import Sylvia.Model.Inter
 import Sylvia.Model.Lex
+import Sylvia.Extracted.UtilsFns
 import Sylvia.Model.Casing
 import Sylvia.Driver.Util
 import Sylvia.Driver.Ops
@@ -17,6 +18,13 @@ def opInter (rest : String) : String :=
   match Inter.assertNoIntersection Lex.lexLt (parseLists rest) with
   | some true => "ok" | some false => "panic" | none => "fuel"
 
+/-- the functions regenerated from sylvia/src/utils.rs by the function translator, run on the same tuples -/
+def opInterX (rest : String) : String :=
+  let msgs := parseLists rest
+  let fuel := msgs.length + (msgs.map List.length).sum + 2
+  match Extracted.Utils.assert_no_intersection Lex.cmpBytes fuel msgs.length msgs with
+  | .ok _ => "ok" | .panic => "panic" | .oof => "fuel"
+
 open Casing in
 def opCase (rest : String) : String :=
   match identOfString rest with
@@ -29,6 +37,7 @@ def handle (line : String) : String :=
   let (op, rest) := splitOp line
   match op with
   | "inter" => opInter rest
+  | "interx" => opInterX rest
   | "case" => opCase rest
   | _ => "bad-op " ++ op
 
